@@ -81,6 +81,7 @@ type Pipe struct {
 	// WriteFailAfter: Write returns ErrLink once this many writes succeeded (-1 = never).
 	WriteFailAfter int
 	writes         int
+	writeErrs      int
 
 	CloseMode string
 	// CloseErr, if set, is returned by Close (after it took effect), as real transports do when
@@ -544,6 +545,7 @@ func (p *Pipe) Write(b []byte) error {
 
 	if p.WriteFailAfter >= 0 && p.writes >= p.WriteFailAfter {
 		p.log("werr", b)
+		p.writeErrs++
 
 		return ErrLink
 	}
@@ -628,4 +630,12 @@ func (p *Pipe) Since() time.Duration {
 	defer p.mu.Unlock()
 
 	return p.now()
+}
+
+// WriteErrors reports how many writes failed because of WriteFailAfter.
+func (p *Pipe) WriteErrors() int {
+	p.mu.Lock()
+	defer p.mu.Unlock()
+
+	return p.writeErrs
 }
